@@ -227,7 +227,11 @@ def run_ob(builder, ob, scratch, replay_dir, want_native=True):
     # Every attempt decides the same formula; only a verdict counts, a timeout never does.
     first = ob.backend
     if first == "z3":
-        ladder = [("z3", 0, 0.34), ("z3", 1, 0.33), ("z3", 2, 0.33)]
+        rs = getattr(ob, "retry_s", None)
+        if rs:      # queries of a family known to answer in seconds: several short attempts with different seeds, then one long one
+            ladder = [("z3", k_, float(rs) / ob.timeout) for k_ in range(6)] + [("z3", 6, 0.5)]
+        else:
+            ladder = [("z3", 0, 0.34), ("z3", 1, 0.33), ("z3", 2, 0.33)]
     elif first in (None, "minisat"):
         ladder = [(None, 0, 1.0), ("cadical", 0, 0.5)]
     elif first == "cadical":
@@ -243,7 +247,7 @@ def run_ob(builder, ob, scratch, replay_dir, want_native=True):
         cmd = cbmc_cmd(ob, gb)
         env["VERIF_Z3_SEED"] = str(seed)
         with open(outf, "wb") as fo:
-            r = run(cmd, timeout=max(30, int(ob.timeout * share)), mem_gb=ob.mem_gb, stdout=fo, env=env)
+            r = run(cmd, timeout=max(15, int(ob.timeout * share)), mem_gb=ob.mem_gb, stdout=fo, env=env)
         res["attempts"].append(dict(backend=be or "minisat", seed=seed, wall_s=round(r["wall"], 1), timed_out=bool(r["timeout"])))
         if not r["timeout"]:
             break
